@@ -24,10 +24,14 @@ type packetConn[A p2p.Addr] struct {
 
 	mu                          sync.Mutex
 	readDeadline, writeDeadline *time.Time
+	closed                      bool
 }
 
 func (c *packetConn[A]) WriteTo(p []byte, to net.Addr) (int, error) {
 	target := to.(Addr[A])
+	if c.isClosed() {
+		return 0, net.ErrClosed
+	}
 	ctx, cf := c.getWriteContext()
 	defer cf()
 	if err := c.swarm.Tell(ctx, target.Addr, p2p.IOVec{p}); err != nil {
@@ -106,7 +110,16 @@ func (c *packetConn[A]) getWriteContext() (context.Context, context.CancelFunc) 
 }
 
 func (c *packetConn[A]) Close() error {
+	c.mu.Lock()
+	c.closed = true
+	c.mu.Unlock()
 	return c.swarm.Close()
+}
+
+func (c *packetConn[A]) isClosed() bool {
+	c.mu.Lock()
+	defer c.mu.Unlock()
+	return c.closed
 }
 
 type Addr[A p2p.Addr] struct {
